@@ -387,7 +387,12 @@ func (n *normalizer) expr(e ast.Expr, at *Point) string {
 	case *ast.UnaryExpr:
 		return x.Op.String() + n.expr(x.X, at)
 	case *ast.BinaryExpr:
-		return "(" + n.expr(x.X, at) + " " + x.Op.String() + " " + n.expr(x.Y, at) + ")"
+		a, b := n.expr(x.X, at), n.expr(x.Y, at)
+		if x.Op == token.EQL || x.Op == token.NEQ {
+			// == and != are symmetric: print the constant-like side second
+			a, b = eqOrder(a, b)
+		}
+		return "(" + a + " " + x.Op.String() + " " + b + ")"
 	case *ast.TypeAssertExpr:
 		if x.Type == nil {
 			return n.expr(x.X, at) + ".(type)"
